@@ -45,6 +45,11 @@ claim('C13', 'devx+bfs',
       'Every assignment of 15 logout-request / SP-metadata dimensions (Issuer variants, ID, IssueInstant and NotOnOrAfter offsets incl. exactly now and now+1us with a pinned clock, lexical forms, NameID/SessionIndex, transports incl. Redirect with and without SAMLEncoding, undecodable payloads, 7 SingleLogoutService list shapes, host-derived issuer) with <= 3 (quick) / <= 4 (thorough) deviations, each on a fresh provider; plus every history of 2 (quick) / up to 3 (thorough) requests over a 16-request alphabet on one provider with every reply judged (catches state carried between requests; sync.Pool is made a deterministic LIFO by the overlay). Replies are decoded by x/net/html and the harness XML tree, never by the repository decoders.',
       'RelayState values with metacharacters are covered by C17/C18, not here.', '§5 C13')
 
+claim('C02', 'devx+bfs',
+      'deviation-bounded exhaustive enumeration of SSO / logout requests and SP metadata, with every persisted record followed through the callback (event history SSO -> callback(pending) -> complete -> callback(done)) on the real provider',
+      'A: every assignment of 16 SSO dimensions (request ACS URL {absent, registered, foreign, foreign-with-registered-prefix}, ACS index, ProtocolBinding, Destination, RelayState incl. a URL, extra parameters named like response fields, 9 ACS metadata shapes incl. URLs with query strings / quotes / angle brackets / fragments, validity failures at several steps, persist failure, signed and forged requests, host-derived issuer) with <= 3 (quick) / <= 4 (thorough) deviations; the pair handed to storage must be a registered entry of the SP named by the issuer, each reply that carries a message must target a registered entry (never a URL occurring only in the request) and every persisted record is then driven through the callback before and after completion where form action / Location, Destination and Recipient must equal the stored pair. B: full product of 9 stored URLs x 4 stored bindings x state x RelayState for injected records. C: logout delivery over 7 SLO list shapes (k<=2).',
+      'Stored and registered URLs are absolute http(s) URLs; targets are compared modulo percent-encoding.', '§5 C02')
+
 NOT_YET = {i: 'check not built yet in this revision (planned: see DESIGN.md §5 %s); not claimed until its machinery exists' % i for i in ids}
 
 def main():
